@@ -256,10 +256,61 @@ task_curve.contract_fn = "curves.Curve.eval"
 
 
 # --------------------------------------------------------------------------------------
+# engine B: histories on one curve object - evaluate, change weights / control points / the knot vector, evaluate again at the SAME parameters
+# --------------------------------------------------------------------------------------
+def task_curve_history():
+    fn = "curves.Curve.eval"
+    from fractions import Fraction as F
+    out = []
+    cases = {"p2": ([F(0)] * 3 + [F(1), F(2)] + [F(3)] * 3, [F(1), F(-2), F(4), F(0), F(3)]), "p1-jump": ([F(-1)] * 2 + [F(0), F(0), F(2)] + [F(5)] * 2, [F(2), F(0), F(1), F(-3), F(4)]),
+             "p3": ([F(0)] * 4 + [F(1, 2)] + [F(1)] * 4, [F(1), F(2), F(-1), F(0), F(5)])}
+    for name, (U, P) in cases.items():
+        p = U.count(U[0]) - 1
+        n = len(P)
+        ks = sorted(set(U))
+        us = ks + [(a + b) / 2 for a, b in zip(ks[:-1], ks[1:])] + [F(1, 7) + ks[0]]
+        W1 = [F(i % 3 + 1) for i in range(n)]
+        W2 = [F(1, i + 1) for i in range(n)]
+        P2 = [x * 2 - 1 for x in P]
+        steps = [("fresh", lambda c: None), ("weights-set", lambda c: setattr(c, "weights", list(W1))), ("weights-replaced", lambda c: setattr(c, "weights", list(W2))),
+                 ("points-replaced", lambda c: setattr(c, "ctrlpoints", list(P2))), ("weights-removed", lambda c: setattr(c, "weights", None)),
+                 ("knot-inserted", lambda c: c.knot_insert([us[-1]])), ("float-parameters-first", None)]
+        c = curves.Curve(list(U), list(P))
+        cur = dict(U=list(U), P=list(P), W=None)
+        bad = None
+        for label, step in steps:
+            if label == "float-parameters-first":
+                c(tuple(float(u) for u in us))          # the same parameters as floats, then exactly: the exact answer must not be a cached float one
+            else:
+                step(c)
+                if label in ("weights-set", "weights-replaced"):
+                    cur["W"] = W1 if label == "weights-set" else W2
+                elif label == "weights-removed":
+                    cur["W"] = None
+                elif label == "points-replaced":
+                    cur["P"] = P2
+            got = c(tuple(us))
+            got1 = c(us[1])
+            want = [spec.curve_value(cur["U"], p, cur["P"], u, cur["W"]) for u in us]
+            if label == "knot-inserted":
+                want = [spec.curve_value(list(U), p, P2, u, None) for u in us]
+            if list(got) != want or got1 != want[1] or any(isinstance(x, float) for x in got):
+                bad = "after '%s': curve(us) = %s, expected %s" % (label, [str(x) for x in got][:4], [str(x) for x in want][:4])
+                break
+        out.append(ob("%s:history[%s]" % (fn, name), fn, FAILED if bad else PROVED, "B", "concrete", 0.0,
+                      bad or "7 evaluations at the same %d parameters while weights / control points / knot vector change in between: always the current curve, exact" % len(us),
+                      dict(kind="c01.history", case=name) if bad else None))
+    return out + [{"_stats": dict(cases=len(out) * 7)}]
+
+
+task_curve_history.contract_fn = "curves.Curve.eval"
+
+
+# --------------------------------------------------------------------------------------
 def tasks(tier, seed):
     from ..pyvc.driver import verify
     from ..contracts import curvesv, kv, misc
-    ts = [(verify, (c, m, q, v)) for c, m, q, v in curvesv.ALL if q == "Curve.eval"]
+    ts = [(verify, (c, m, q, v)) for c, m, q, v in curvesv.ALL if q == "Curve.eval"] + [(task_curve_history, ())]
     ts += [(verify, (kv.SPAN_SINGLE, "heavy", "ImmutableKnotVector.__span_single")),
           (verify, (kv.VALID_SINGLE, "heavy", "ImmutableKnotVector.__valid_single")),
           (verify, (misc.HORNER, "heavy", "BasisFunction.horner_method"))]
@@ -294,6 +345,9 @@ def concrete_inputs(w):
 
 def replay(o):
     w = o["witness"]
+    if w.get("kind") == "c01.history":
+        r = [x for x in task_curve_history() if "id" in x and x["id"].endswith("[%s]" % w["case"])][0]
+        return r["status"] == FAILED, "the value of the CURRENT curve at every step", r["detail"]
     shape, pt, U, ks = concrete_inputs(w)
     p = shape[0]
     n = len(U) - p - 1
